@@ -32,7 +32,8 @@ def supplemental_rows(b):
         rows = []
         for r in s['rows']:
             y, m, d = r['date']
-            rows.append({'date': '%04d-%02d-%02d' % (y, m, d), 'description': r['desc'].strip(), 'amount': round(r['value'], 2)})
+            rows.append({'date': '%04d-%02d-%02d' % (y, m, d), 'description': r['desc'].strip(),
+                         'amount': round(r['value'], 3 if r.get('style') == 'plain3' else 2)})
         if rows:
             out[s['name'].lower()] = rows
     return out
